@@ -220,7 +220,7 @@ def _ymd(y,m,d):
     return datetime.datetime(y,m,1) + (d-1) * DAY
 
 def num2dt(n):
-    i = int(n); f = datetime.timedelta(n - i)
+    i = int(n); f = datetime.timedelta(float(n - i)) # n may be a numpy number (is_num): timedelta takes python numbers only
     if i<=1500:
         return today() + i * DAY + f
     elif i<=3000:
